@@ -506,10 +506,11 @@ mod search {
                 None => {
                     let disk = std::fs::read_to_string(ws.path(d)).ok();
                     if got != disk {
-                        // the open finding: the document is ABSENT although its file exists, the client closed it in this run, and the reload never
-                        // had it in a snapshot (so nothing the reload does with its snapshots can have removed it)
-                        let known = got.is_none() && disk.is_some() && scn.script.iter().any(|n| matches!(n, Note::Close(x) if *x == d))
-                            && !seen_all && !seen_by_reload.iter().any(|x| x == d.rel());
+                        // (until fix 4bd2450 one shape of this was an open finding: ABSENT although the file exists, closed in this run, never in a
+                        // snapshot of the reload — didClose decided under analysis.read and removed under analysis.write. It is fixed, hence a
+                        // violation like any other should it return.)
+                        let _ = (&seen_all, &seen_by_reload);
+                        let known = false;
                         violations.push(Violation { what: format!("closed document {} is analysed with {:?}, {}", d.rel(), got,
                             match &disk { Some(t) => format!("its file holds {:?}", t), None => "it has no file (must be absent)".to_string() }), known });
                     }
